@@ -179,6 +179,8 @@ type World struct {
 	// cooperative scheduler (one goroutine at a time, yields inside API calls) the mutex must not be used.
 	Free bool
 	mu   sync.Mutex
+	// AdminReserved: the addresses an administrator has reserved (Reserve) and not given back (Unreserve).
+	AdminReserved map[string]bool
 	// LoseBindResponse: the next pods/binding call is applied but answered with a time-out.
 	LoseBindResponse bool
 	// TwoInstances is set by scenarios in which an old galaxy-ipam instance finishes a request while a new one has started:
@@ -436,6 +438,10 @@ func (w *World) Reserve(ip string) error {
 		ObjectMeta: metav1.ObjectMeta{Name: ip, Labels: map[string]string{constant.ReserveFIPLabel: ""}},
 		Spec:       v1alpha1.FloatingIPSpec{Key: "admin-reserved", Policy: constant.ReleasePolicyNever}}
 	w.FIPs[ip] = f
+	if w.AdminReserved == nil {
+		w.AdminReserved = map[string]bool{}
+	}
+	w.AdminReserved[ip] = true
 	w.evSeq++
 	w.Pending = append(w.Pending, Event{Kind: "fip-add", FIP: f.DeepCopy(), Seq: w.evSeq})
 	return nil
@@ -452,6 +458,7 @@ func (w *World) Unreserve(ip string) error {
 		return fmt.Errorf("not a reservation")
 	}
 	delete(w.FIPs, ip)
+	delete(w.AdminReserved, ip)
 	w.evSeq++
 	w.Pending = append(w.Pending, Event{Kind: "fip-delete", FIP: f.DeepCopy(), Seq: w.evSeq})
 	return nil
